@@ -74,3 +74,15 @@ impl<'a> Buf for Cursor<'a> {
 pub fn vx_u16_from_be(a: u8, b: u8) -> (r: u16)
     ensures r == (a as int) * 256 + (b as int)
 { (a as u16) * 256 + (b as u16) }
+/// R6 target for `u16::from_be_bytes(src[i..i + 2].try_into().unwrap())` (panics when i + 2 > len)
+#[verifier::external_body]
+pub fn vx_be16_at(src: &BytesMut, i: usize) -> (r: u16)
+    requires i + 2 <= src@.len(),
+    ensures r == (src@[i as int] as int) * 256 + (src@[i as int + 1] as int),
+{ unimplemented!() }
+/// R6 target for `&src[i..i + 4] == MQTT` with `MQTT = b"MQTT"` (panics when i + 4 > len)
+#[verifier::external_body]
+pub fn vx_eq_mqtt_at(src: &BytesMut, i: usize) -> (r: bool)
+    requires i + 4 <= src@.len(),
+    ensures r == (src@[i as int] == 0x4Du8 && src@[i as int + 1] == 0x51u8 && src@[i as int + 2] == 0x54u8 && src@[i as int + 3] == 0x54u8),
+{ unimplemented!() }
